@@ -10,6 +10,7 @@ from cnfgen.formula.cnf import CNF
 from cnfgen.formula.opb import OPB
 from cnfgen.formula.cnfio import guess_output_format
 from vlib.xh.xutil import pick, pickb, untraced
+from vlib.xh.c06 import strict_read as strict_read_dimacs
 
 # constraints as given to add_constraint (before normalisation); None = add_clause([]) ; list of ints = add_clause
 ROWS = [
@@ -27,7 +28,7 @@ ROWS = [
     [[1, 1], [1, 2], [1, 3], '<=', 1],
 ]
 CLAUSES = [[], [1], [-1, 2], [3, -3], [2, 2, -1], [-3, -2, -1], [1, 2, 3]]
-LABELS = [None, 'y_{}', 'p_{{{},7}}', 'a^{}', 'plain{}', 'q{}_b^c']
+LABELS = [None, 'y_{}', 'p_{{{},7}}', 'a^{}', 'in stock {}', 'q{}_b^c']
 NOTES = ['plain', 'two\nlines', 'carriage\rreturn +1 x1 >= 1', 'form\x0cfeed', 'unit\x1cseparator', 'caf\u00e9', '* star', '']
 SINGLES = ['y', 'z', 'w', 'u', 'v']
 
@@ -109,7 +110,8 @@ def _opb_ok(F, is_cnf, header, varnames):
 
 # -------------------------------------------------------------------- LaTeX row reader
 def _norm(s):
-    return s.replace('{', '').replace('}', '').replace(' ', '')
+    # braces are grouping only; blanks INSIDE a name are part of the name (runs of blanks count as one), padding around it is not
+    return ' '.join(s.replace('{', ' ').replace('}', ' ').split()).replace(' _', '_').replace('_ ', '_').replace(' ^', '^').replace('^ ', '^')
 
 
 def _latex_rows(text):
@@ -278,6 +280,31 @@ def _pages(size, is_cnf, li):
 
 
 SIZES = [0, 1, 2, 34, 35, 36, 69, 70, 71, 105, 106]
+
+
+OPB_SIZES = [63, 64, 65, 127, 128, 129, 255, 256, 257, 511, 512, 513, 1023, 1024, 1025, 1536, 2048]
+
+
+def _opb_sizes(size, is_cnf, li):
+    """row counts at and around powers of two (block-wise writers): declared counts and every row, as text and as file"""
+    if is_cnf:
+        F = _mk_cnf([(i * 3 + 1) % len(CLAUSES) for i in range(size)], li, 0)
+    else:
+        F = _mk_opb([(i * 5 + 1) % len(ROWS) for i in range(size)], li, 0)
+    if not (_opb_ok(F, is_cnf, True, True) and _opb_ok(F, is_cnf, False, False)):
+        return False
+    if is_cnf:
+        got = strict_read_dimacs(F.to_dimacs())
+        return got is not None and got[0] == F.number_of_variables() and got[1] == [list(c) for c in F.clauses()]
+    return True
+
+
+def h_e_opb_sizes(si: int, is_cnf: bool, li: int) -> bool:
+    """
+    pre: 0 <= si <= 16 and 0 <= li <= 1
+    post: _
+    """
+    return untraced(_opb_sizes, OPB_SIZES[pick(si, 0, 16)], pickb(is_cnf), pick(li, 0, 1))
 
 
 def h_e_pages(si: int, is_cnf: bool, li: int) -> bool:
